@@ -456,3 +456,214 @@ func counterNotForwarded(p *Program, rule, fnName string, argIdx int) []Obligati
 	}
 	return []Obligation{ob}
 }
+
+// ruleRoundKind: C02/C16 ROUND-KIND and request-term provenance of vote rounds.
+func ruleRoundKind() *Rule {
+	const id = "ROUND-KIND"
+	return &Rule{
+		ID: id,
+		Text: "A round of vote requests is a prevote round exactly when it is started from the PreCandidate state (the flag handed to the round's goroutines is r.state == PreCandidate); " +
+			"the request of a real round carries Term = currentTerm (which becomeCandidate has just incremented and self-voted in), the request of a prevote round carries currentTerm+1 in the message only; " +
+			"the Prevote field of the request is that flag. A real-vote round started from PreCandidate would collect real votes for a term the node has neither entered nor voted in.",
+		Floor: 3,
+		Run: func(p *Program) []Obligation {
+			var out []Obligation
+			spawner := p.Func("(*Raft).sendRequestVoteToPeers")
+			target := p.Func("(*Raft).sendRequestVote")
+			if spawner == nil || target == nil {
+				return missing(id, "(*Raft).sendRequestVoteToPeers / (*Raft).sendRequestVote")
+			}
+			pc, _ := p.ConstVal("PreCandidate")
+			fr := NewRootFrame(spawner)
+			n := 0
+			for _, b := range spawner.Blocks {
+				for _, in := range b.Instrs {
+					g, ok := in.(*ssa.Go)
+					if !ok || g.Common().StaticCallee() != target {
+						continue
+					}
+					n++
+					ob := Obligation{Rule: id, Construct: "prevote flag of the round spawned in (*Raft).sendRequestVoteToPeers" + ordSuffix(n), Pos: p.InstrPos(in)}
+					flag := p.Canon(fr, g.Common().Args[4]).S
+					if flag == fmt.Sprintf("(%d == r.state)", pc) {
+						ob.Verdict, ob.Detail = Discharged, "flag = (r.state == PreCandidate)"
+					} else {
+						ob.Verdict, ob.Detail = Violated, "the round's prevote flag is "+flag+", must be r.state == PreCandidate: otherwise a pre-candidate collects real votes for its current term (which it may already have voted in for someone else) or a candidate's real election is treated as a prevote"
+					}
+					out = append(out, ob)
+				}
+			}
+			if n == 0 {
+				out = append(out, missing(id, "go sendRequestVote in sendRequestVoteToPeers")...)
+			}
+			// request term in sendRequestVote, latched at the unlock before the send
+			voc := p.discoverElection(target)
+			if voc.reqTerm == "" || voc.prevote == "" {
+				return append(out, missing(id, "request.Term / request.Prevote in (*Raft).sendRequestVote")...)
+			}
+			latch := GhostAtom("termOkAtLastUnlock", "no", "yes")
+			sp := NewSpace(CmpAtom("reqTerm?curTerm", voc.reqTerm, "r.currentTerm"), BoolAtom("prevoteRound", voc.prevote), latch)
+			a := NewAnalysis(p, sp)
+			a.Hook = func(a *Analysis, f *Frame, in ssa.Instruction, st State) State {
+				if ci, ok := in.(ssa.CallInstruction); ok {
+					if _, isDefer := in.(*ssa.Defer); isDefer && !a.AtRunDefers {
+						return st
+					}
+					if op, recv := isMutexOp(ci.Common()); op == "Mutex.Unlock" && isNodeMutex(recv) {
+						return sp.Map(st, 2, func(pt, old int) uint32 {
+							if (sp.Val(pt, 1) == 1 && sp.Val(pt, 0) == GT) || (sp.Val(pt, 1) == 0 && sp.Val(pt, 0) == EQ) {
+								return 1 << 1
+							}
+							return 1 << 0
+						})
+					}
+				}
+				if iface, m, _ := invokeOf(in); iface == "Transport" && m == "SendRequestVote" {
+					a.Observe("term of the vote request sent in "+chainKey(f), f, in, st)
+				}
+				return st
+			}
+			a.RunFrame(NewRootFrame(target), sp.Filter(sp.Top(), 2, 1))
+			out = append(out, evalObs(a, id, a.SortedObs(), func(_ *Observation, pt int) bool { return sp.Val(pt, 2) == 1 }, []int{2},
+				"when the mutex is released for the send, a real request carries exactly currentTerm and a prevote request a larger term")...)
+			// Prevote field = the flag parameter
+			ob := Obligation{Rule: id, Construct: "field RequestVoteRequest.Prevote of the request built in (*Raft).sendRequestVote", Pos: p.Pos(target.Pos())}
+			if voc.prevote == "p3" {
+				ob.Verdict, ob.Detail = Discharged, "= the round's prevote flag"
+			} else {
+				ob.Verdict, ob.Detail = Violated, "request.Prevote is "+voc.prevote+", must be the round's prevote flag"
+			}
+			return append(out, ob)
+		},
+	}
+}
+
+// ruleTermStepdown: C02 TERM-STEPDOWN and SELF-VOTE.
+func ruleTermStepdown() *Rule {
+	const id = "TERM-STEPDOWN"
+	return &Rule{
+		ID: id,
+		Text: "(TERM-STEPDOWN) when currentTerm is raised to a value taken from a message while the node may be Leader, the node leaves the leader state (state := Follower) before the critical section ends — a leader must never carry its leadership into a term it was not elected in; " +
+			"(SELF-VOTE) a term increment (candidacy) is accompanied, before the critical section ends, by votedFor := r.id, so that the candidate cannot give the vote it counts for itself to someone else.",
+		Floor: 4,
+		Run: func(p *Program) []Obligation {
+			curTerm, votedFor, stateFld := p.Field("Raft.currentTerm"), p.Field("Raft.votedFor"), p.Field("Raft.state")
+			if curTerm == nil || votedFor == nil || stateFld == nil {
+				return missing(id, "Raft.currentTerm / votedFor / state")
+			}
+			var out []Obligation
+			fol, _ := p.ConstVal("Follower")
+			for _, root := range p.Roots() {
+				if !p.writesAny(root, curTerm) {
+					continue
+				}
+				var sites []string
+				key := func(f *Frame, in ssa.Instruction) string {
+					n := instrOrdinal(in, func(x ssa.Instruction) bool { _, fl := storeField(x); return fl == curTerm })
+					return "store Raft.currentTerm" + ordSuffix(n) + " in " + chainKey(f)
+				}
+				p.discover(root, func(a *Analysis, f *Frame, in ssa.Instruction) {
+					if s, fld := storeField(in); s != nil && fld == curTerm && !fromStateStorage(s.Val, 0) {
+						sites = append(sites, key(f, in))
+					}
+				})
+				if len(sites) == 0 {
+					continue
+				}
+				stateAtom := p.StateAtom()
+				labels := append([]string{"no"}, sites...)
+				sp := NewSpace(stateAtom, GhostAtom("stepDownOwedBy", labels...), GhostAtom("selfVoteOwedBy", labels...))
+				a := NewAnalysis(p, sp)
+				L := enumIdx(stateAtom, "Leader")
+				pos := map[int]string{}
+				kind := map[int]string{}
+				a.Hook = func(a *Analysis, f *Frame, in ssa.Instruction, st State) State {
+					if s, fld := storeField(in); s != nil {
+						switch fld {
+						case curTerm:
+							if fromStateStorage(s.Val, 0) {
+								return st
+							}
+							k := key(f, in)
+							si := 0
+							for i, x := range sites {
+								if x == k {
+									si = i + 1
+								}
+							}
+							pos[si] = p.InstrPos(in)
+							if isLoadPlusOne(p, s.Val, "Raft.currentTerm") {
+								kind[si] = "increment"
+								return sp.Assign(st, 2, si)
+							}
+							kind[si] = "assign"
+							return sp.Map(st, 1, func(pt, old int) uint32 {
+								if sp.Val(pt, 0) == L {
+									return 1 << uint(si)
+								}
+								return 1 << uint(old)
+							})
+						case stateFld:
+							if c, ok := s.Val.(*ssa.Const); ok {
+								if v, ok := constInt(c); ok && v == fol {
+									return sp.Assign(st, 1, 0)
+								}
+							}
+						case votedFor:
+							if p.Canon(f, s.Val).S == "r.id" {
+								return sp.Assign(st, 2, 0)
+							}
+						}
+						return st
+					}
+					if what, ok := a.isSectionEnd(in); ok {
+						n := instrOrdinal(in, func(x ssa.Instruction) bool { _, ok := a.isSectionEndStatic(x); return ok })
+						a.Observe("END "+what+ordSuffix(n)+" in "+chainKey(f), f, in, st)
+						return sp.Assign(sp.Assign(st, 1, 0), 2, 0)
+					}
+					return st
+				}
+				a.RunFrame(NewRootFrame(root), sp.Filter(sp.Filter(sp.Top(), 1, 1), 2, 1))
+				owedSD, owedSV := map[int][]string{}, map[int][]string{}
+				for _, o := range a.SortedObs() {
+					for i := 1; i <= len(sites); i++ {
+						if !sp.Filter(o.State, 1, 1<<uint(i)).IsEmpty() {
+							owedSD[i] = append(owedSD[i], strings.TrimPrefix(o.Key, "END ")+" ("+o.Pos+")")
+						}
+						if !sp.Filter(o.State, 2, 1<<uint(i)).IsEmpty() {
+							owedSV[i] = append(owedSV[i], strings.TrimPrefix(o.Key, "END ")+" ("+o.Pos+")")
+						}
+					}
+				}
+				for i, s := range sites {
+					si := i + 1
+					if kind[si] == "" {
+						continue
+					}
+					ob := Obligation{Rule: id, Pos: pos[si]}
+					if kind[si] == "increment" {
+						ob.Construct = "SELF-VOTE " + s
+						if len(owedSV[si]) > 0 {
+							ob.Verdict = Violated
+							ob.Detail = "the term is incremented for a candidacy but votedFor := r.id does not follow in the same critical section: the candidate counts its own vote and can still grant the same term's vote to another candidate"
+							ob.Facts = owedSV[si]
+						} else {
+							ob.Verdict, ob.Detail = Discharged, "votedFor := r.id follows in the same critical section"
+						}
+					} else {
+						ob.Construct = "TERM-STEPDOWN " + s
+						if len(owedSD[si]) > 0 {
+							ob.Verdict = Violated
+							ob.Detail = "currentTerm is set from a message while the node may be Leader and state := Follower does not follow before the critical section ends: the node would act as leader of a term it was not elected in"
+							ob.Facts = owedSD[si]
+						} else {
+							ob.Verdict, ob.Detail = Discharged, "a leader that adopts a term from a message becomes a follower in the same critical section (or cannot be leader here)"
+						}
+					}
+					out = append(out, ob)
+				}
+			}
+			return dedupe(out)
+		},
+	}
+}
